@@ -276,3 +276,8 @@ Fixpoint wf_ty (t : ty) : Prop :=
   | Dyn t' => wf_ty t'
   | Tuple its => fold_right (fun it acc => wf_ty (snd it) /\ acc) True its
   end.
+
+(* the configuration is usable: every parameter has at least one candidate length, and
+   lengths fit the 256-bit length word *)
+Definition cfg_ok (c : cfg) : Prop :=
+  forall name arr, cand c name arr <> [] /\ Forall (fun n => Z.of_nat n < W256) (cand c name arr).
